@@ -192,7 +192,8 @@ class Prop:
             "to a str / Path target must be the same document; one meta dict reused by a second save with maps off stays untouched and gives the "
             "layout for (off, off); class-level default maps unchanged. "
             "READER cases: documents produced by that independent encoder (never by save; object members in random order for half of them) are loaded by the implementation; oracle = "
-            "iso(source, loaded) + file meta + the same tree with deserialize mappers that consume their dict.  The 4 literal documents of docs/sphinx/ug_serialize.rst; malformed / foreign headers. "
+            "iso(source, loaded) + file meta + the same tree with deserialize mappers that consume their dict + sequences of loads sharing ONE "
+            "file_meta dict (documents with / without / with other maps in several orders; each result = that document alone, its header in the dict).  The 4 literal documents of docs/sphinx/ug_serialize.rst; malformed / foreign headers. "
             "non-trivial = the document has a clone reference, a kind-differing clone, a shortened key or value")
     exhaustive_note = "all forest shapes <= N nodes (N=4 quick) with sampled labelings/options"
     assumptions = ["json.dump/json.load are the identity on JSON values (exercised: the real text is parsed)",
@@ -456,6 +457,18 @@ class Prop:
                                 f"differs: {S.canon(tc._root)} instead of {S.canon(t2._root)}")
                     if fail:
                         break
+            if not fail and not finding:
+                # SEQUENCES of loads sharing ONE caller-owned file_meta dict: another file with maps first, then this
+                # document, the same tree encoded without maps, with the other maps, without, and this document again --
+                # every load must give the tree of THAT document alone and leave its header in the dict
+                texts = [text]
+                for km2, vm2 in (("false", "false"), ("custom", "custom") if desc.get("km") != "custom" else ("true", "true"), ("false", "false")):
+                    try:
+                        texts.append(json.dumps(self.expected_doc(dict(desc, km=km2, vm=vm2), tree)))
+                    except Exception:  # noqa: BLE001 (value list does not cover ...)
+                        pass
+                texts.append(text)
+                fail = S.file_meta_reuse_check(cls, lkw, texts, S.canon(t2._root))
         fail = fail or S.class_defaults_changed()
         strings = set()
         S.all_strings(doc, strings)
